@@ -97,3 +97,11 @@ package filtering
 //@ func (d *DNSFilter) RegisterFilteringHandlers()
 //@   property C11
 //@   modifies *
+
+// The configuration-modified callback writes the configuration file and takes this package's configuration lock again
+// (home.onConfigModified -> config.write -> WriteDiskConfig): it must be invoked with no lock held.
+//@ package-callsite fieldcall:github.com/AdguardTeam/AdGuardHome/internal/filtering.Config.ConfigModified() requires nolocks()
+//@ sweep C05 fieldcall:github.com/AdguardTeam/AdGuardHome/internal/filtering.Config.ConfigModified
+//@ func filterToJSON(f FilterYAML) (fj filterJSON)
+//@   trusted
+//@   modifies nothing
